@@ -581,8 +581,11 @@ class Check:
             "wall_s": round(time.time() - self.t0, 2),
             "violations": nviol,
         }
-        (VERIF / "evidence").mkdir(exist_ok=True)
-        (VERIF / "evidence" / f"{self.prop}.json").write_text(json.dumps(ev, indent=1, default=str))
+        # evidence of record is only written for runs against /repo itself; runs against another
+        # checkout (VERIF_REPO=..., used to try seeded changes) go to a scratch directory
+        evdir = VERIF / "evidence" if REPO.resolve() == Path("/repo") else Path(tempfile.gettempdir()) / "verif-evidence-other"
+        evdir.mkdir(exist_ok=True)
+        (evdir / f"{self.prop}.json").write_text(json.dumps(ev, indent=1, default=str))
 
 
 def shrink_list(items, fails, max_steps=400):
